@@ -34,7 +34,7 @@ Proof.
   - right. right. destruct (uncovered s); [reflexivity|discriminate].
 Qed.
 
-Lemma sites_all_ok : List.length sites = n_sites /\ forallb (fun s => site_ok s || is_open s) sites = true.
+Lemma sites_all_ok : List.length sites = n_sites /\ forallb site_ok sites = true.
 Proof. split; vm_compute; reflexivity. Qed.
 
 Lemma rstmts_all_ok : List.length raise_stmts = n_raise_stmts /\ forallb rstmt_ok raise_stmts = true.
@@ -43,8 +43,7 @@ Proof. split; vm_compute; reflexivity. Qed.
 Lemma tables_ok : declared_ok = true /\ classes_known = true /\ tables_live = true.
 Proof. repeat split; vm_compute; reflexivity. Qed.
 
-(* the open defects: urlparse() raises ValueError ("Invalid IPv6 URL") and neither call site
-   has a handler for it *)
+(* open defects (sites listed in open_sites; none today): each listed site is really uncovered *)
 Definition open_check (w : string * string * string * nat * string) : bool :=
   match w with (f, g, c, i, _) =>
     match find (fun s => site_key_eqb s f g c i) sites with
@@ -72,6 +71,3 @@ Proof.
   - apply negb_true_iff. exact H1.
   - apply mem_s_In. exact H2.
 Qed.
-
-Lemma open_sites_nonempty : open_sites <> [].
-Proof. discriminate. Qed.
